@@ -226,7 +226,16 @@ def s_value(kind, safe_text=False):
         return st.fixed_dictionaries({"FREQ": st.sampled_from(["DAILY", "WEEKLY", "MONTHLY", "YEARLY"])},
                                      optional={"COUNT": st.integers(1, 20), "INTERVAL": st.integers(1, 5),
                                                "BYDAY": st.lists(st.sampled_from(["MO", "TU", "-1SU", "2FR"]), min_size=1, max_size=2, unique=True),
-                                               "BYMONTH": st.lists(st.integers(1, 12), min_size=1, max_size=2, unique=True)}
+                                               "BYMONTH": st.lists(st.integers(1, 12), min_size=1, max_size=2, unique=True),
+                                               # every numeric rule part (each has its own entry in the library's type table)
+                                               "BYWEEKNO": st.lists(st.sampled_from([1, 20, 53, -1]), min_size=1, max_size=2, unique=True),
+                                               "BYYEARDAY": st.lists(st.sampled_from([1, 100, 366, -1]), min_size=1, max_size=2, unique=True),
+                                               "BYMONTHDAY": st.lists(st.sampled_from([1, 15, 31, -1]), min_size=1, max_size=2, unique=True),
+                                               "BYSETPOS": st.lists(st.sampled_from([1, -1, 3]), min_size=1, max_size=1),
+                                               "BYHOUR": st.lists(st.sampled_from([0, 9, 23]), min_size=1, max_size=2, unique=True),
+                                               "BYMINUTE": st.lists(st.sampled_from([0, 30, 59]), min_size=1, max_size=1),
+                                               "BYSECOND": st.lists(st.sampled_from([0, 59]), min_size=1, max_size=1),
+                                               "WKST": st.sampled_from(["MO", "SU"])}
                                      ).map(lambda d: {"k": "recur", "v": d})
     if kind == "geo":
         return st.tuples(st.sampled_from([37.386013, -45.5, 0.0]), st.sampled_from([-122.082932, 10.25, 179.5])).map(lambda t: {"k": "geo", "v": list(t)})
